@@ -18,6 +18,12 @@ def run(tier):
     hres.n = len(hb)
     c.add_replay(hres, "histories of wrapper calls, each next to the World call on the twin handle, bitwise")
     c.coverage["histories"] = len(hb) - 1
+    from lib import gen
+    gb = gen.behaviours(c, tier, "wrapper")
+    gres = replay.replay(exe, gb, shards=16, timeout_s=300)
+    gres.n = len(gb)
+    c.add_replay(gres, "documents of the world-file grammar built natively and through create_world: properties_3d vs World::properties, bitwise")
+    c.coverage["grammar_documents"] = len(gb)
     c.sample(r.behaviours[0][:2500] + "...")
     c.coverage["exhaustive"] = True
     c.coverage["distinct_nontrivial"] = res.stats.get("by_check", {}).get("bits", 0) + hres.stats.get("by_check", {}).get("bits", 0)
